@@ -301,6 +301,29 @@ func policyFor(kind string, idx int) seccomp.Policy {
 		}
 		l = append(l, cond(uint64(probeBase+idx)))
 		return seccomp.Policy{DefaultAction: seccomp.ActionAllow, Syscalls: []seccomp.SyscallGroup{{Action: seccomp.ActionErrno, NamesWithCondtions: l}}}
+	case "nonames":
+		// valid, default allow, a group without any name: nothing can tell this filter from no filter - except the task's filter count
+		return seccomp.Policy{DefaultAction: seccomp.ActionAllow, Syscalls: []seccomp.SyscallGroup{{Action: seccomp.ActionErrno}}}
+	case "allowall":
+		// valid, every action is allow
+		return seccomp.Policy{DefaultAction: seccomp.ActionAllow, Syscalls: []seccomp.SyscallGroup{{Action: seccomp.ActionAllow, NamesWithCondtions: []seccomp.NameWithConditions{cond(uint64(probeBase + idx))}}}}
+	case "denyseccomp":
+		// the filter answers seccomp(2) itself with EPERM from now on
+		return seccomp.Policy{DefaultAction: seccomp.ActionAllow, Syscalls: []seccomp.SyscallGroup{{Action: seccomp.ActionErrno, Names: []string{"seccomp"}}}}
+	case "denyprctl":
+		// the filter answers prctl(2) with EPERM from now on
+		return seccomp.Policy{DefaultAction: seccomp.ActionAllow, Syscalls: []seccomp.SyscallGroup{{Action: seccomp.ActionErrno, Names: []string{"prctl"}}}}
+	case "denyseccomp38":
+		// ... with ENOSYS (the action word carries the errno in its data bits)
+		return seccomp.Policy{DefaultAction: seccomp.ActionAllow, Syscalls: []seccomp.SyscallGroup{{Action: seccomp.ActionErrno | seccomp.Action(38), Names: []string{"seccomp"}}}}
+	case "big":
+		// valid, about 4000 instructions (tens of milliseconds to assemble); the last list answers the probe
+		var l []seccomp.NameWithConditions
+		for j := 0; j < 800; j++ {
+			l = append(l, cond(uint64(700000+j)))
+		}
+		l = append(l, cond(uint64(probeBase+idx)))
+		return seccomp.Policy{DefaultAction: seccomp.ActionAllow, Syscalls: []seccomp.SyscallGroup{{Action: seccomp.ActionErrno, NamesWithCondtions: l}}}
 	case "nodefault":
 		return seccomp.Policy{Syscalls: []seccomp.SyscallGroup{{Action: seccomp.ActionErrno, NamesWithCondtions: []seccomp.NameWithConditions{cond(uint64(probeBase + idx))}}}, DefaultAction: seccomp.Action(0x12345)}
 	}
@@ -339,7 +362,31 @@ func classify(err error) string {
 // ordinary goroutine that is forced to another OS thread at the schedule point ("gm").
 func runOn(who string, step int, f func()) {
 	switch {
-	case who == "g" || who == "gm":
+	case who == "g" || who == "gm" || who == "gp":
+		var stop int32
+		if who == "gp" {
+			// a goroutine under scheduling pressure: stop-the-world cycles requeue the running goroutine, other
+			// goroutines keep several threads awake and hungry for work - it may be moved to another thread anywhere
+			for i := 0; i < 2; i++ {
+				go func() {
+					for atomic.LoadInt32(&stop) == 0 {
+						runtime.GC()
+					}
+				}()
+			}
+			for i := 0; i < 8; i++ {
+				go func() {
+					for atomic.LoadInt32(&stop) == 0 {
+						time.Sleep(20 * time.Microsecond)
+					}
+				}()
+			}
+			time.Sleep(5 * time.Millisecond)
+			defer func() {
+				atomic.StoreInt32(&stop, 1)
+				time.Sleep(2 * time.Millisecond)
+			}()
+		}
 		if who == "gm" {
 			seccomp.SchedPointVerif = func() {
 				before := syscall.Gettid()
